@@ -3599,7 +3599,8 @@ class DecVar(Vars):
             indices = list(self.dro_model.series_scen[events])
 
         for index in indices:
-            if index in self.event_adapt[0]:
+            if (index in self.event_adapt[0] and
+                    not getattr(self, 'event_complete', False)):
                 self.event_adapt[0].remove(index)
             else:
                 raise KeyError('Wrong scenario index or {0} '.format(index) +
@@ -3607,6 +3608,7 @@ class DecVar(Vars):
 
         if not self.event_adapt[0]:
             self.event_adapt.pop(0)
+            self.event_complete = True
 
         self.event_adapt.append(list(indices))
 
